@@ -22,7 +22,11 @@ import (
 // diffV4 is the differential oracle on one byte string.
 func diffV4(rec *obs.Rec, b []byte) *obs.Fail {
 	want, why := refv4.Decode(b)
-	got, err := dhcpv4.FromBytes(b)
+	in := append([]byte{}, b...)
+	got, err := dhcpv4.FromBytes(in)
+	if !bytes.Equal(in, b) {
+		return obs.Failf("C04/decoder-wrote-to-its-input", "FromBytes leaves its input unchanged", "input changed at byte %d", firstDiff(in, b))
+	}
 	if rec != nil {
 		if why == refv4.OK {
 			rec.Class("accepted")
@@ -39,7 +43,21 @@ func diffV4(rec *obs.Rec, b []byte) *obs.Fail {
 	if err != nil {
 		return nil
 	}
-	return cmpRefV4("C04", want, got)
+	if f := cmpRefV4("C04", want, got); f != nil {
+		return f
+	}
+	// what a decode returns depends on the bytes alone, not on what callers did to earlier results: the first result
+	// is overwritten in place, then the same bytes must read the same again
+	scribbleValue(got, 0xA5)
+	again, err := dhcpv4.FromBytes(append([]byte{}, b...))
+	if err != nil {
+		return obs.Failf("C04/verdict/second-decode", "the same bytes are accepted again", "error %v", err)
+	}
+	if f := cmpRefV4("C04", want, again); f != nil {
+		f.Sig += "/after-an-earlier-result-was-overwritten"
+		return f
+	}
+	return nil
 }
 
 func cmpRefV4(prefix string, want *refv4.Packet, got *dhcpv4.DHCPv4) *obs.Fail {
